@@ -240,7 +240,7 @@ def main(tier):
         runs = [(b, i) for b in bins for i in range(PAR)]
         outs = [os.path.join(work, "cases_out_%d_%d.ndjson" % (k, i)) for k, (b, i) in enumerate(runs)]
         vf.run_parallel([[b, "cases", cases_path, outs[k], str(i), str(PAR)] for k, (b, i) in enumerate(runs)], par=PAR,
-                        timeout=1000, ok_codes=(0, 3))
+                        timeout=700, ok_codes=(0, 3))
         vf.log("[c11] cases replayed %.0fs" % (time.time() - t00))
         summ = {"cases": 0, "subcases": 0, "evaluations": 0, "deviations": 0, "deviations_dropped": 0,
                 "skipped_after_repeated_crash": 0, "pairs_reported": 0, "zero_length_pairs_reported": 0}
